@@ -474,7 +474,7 @@ func genSecret(r *Rand, g GenCfg) Plan {
 	} else {
 		lo := r.Intn(n * 8)
 		// every region of a long ciphertext is visited: ~1500 flips spread evenly (odd stride), plus dense ranges
-		p.Steps = append(p.Steps, SecStep{Op: "flip_all", Hi: -1, Step: (n*8/1500)|1}, SecStep{Op: "flip_all", Lo: lo, Hi: lo + 300}, SecStep{Op: "flip_all", Hi: 40*8 + 64},
+		p.Steps = append(p.Steps, SecStep{Op: "flip_all", Hi: -1, Step: (n * 8 / 1500) | 1}, SecStep{Op: "flip_all", Lo: lo, Hi: lo + 300}, SecStep{Op: "flip_all", Hi: 40*8 + 64},
 			SecStep{Op: "flip_all", Lo: (n+40)*8 - 300, Hi: -1}, SecStep{Op: "trunc_all", Hi: 100})
 	}
 	p.Steps = append(p.Steps, SecStep{Op: "extend"})
